@@ -121,19 +121,41 @@ func checkC18(c *Ctx) {
 	sc := p.Fn("tcell:(*simscreen).showCursor")
 	if sc != nil {
 		ok := false
-		for _, st := range storesTo(sc, "tcell.simscreen", "cursorvis") {
-			if v, isC := constBool(st.Val); isC && v {
-				g := guardsAt(st.Block())
-				n := 0
-				for _, a := range g {
-					s := a.String()
-					if strings.Contains(s, "cursorx") || strings.Contains(s, "cursory") {
+		// the coordinate tests may guard a store of true, or be the stored expression itself
+		// (vis = x >= 0 && y >= 0 && x < w && y < h, or the negation of the off-screen test); the fields may
+		// be grouped in a struct: what counts is four comparisons of the requested position
+		countTests := func(gs []rawGuard) int {
+			n := 0
+			for _, g := range gs {
+				if at, okA := condAtom(g.Cond, g.Positive); okA {
+					as := at.String()
+					if (strings.Contains(as, "cursor") || strings.Contains(as, ".x") || strings.Contains(as, ".y")) && (at.Op == "<" || at.Op == ">=" || at.Op == ">" || at.Op == "<=") {
 						n++
 					}
 				}
-				ok = n >= 4
 			}
+			return n
 		}
+		eachInstr(sc, func(in ssa.Instruction) {
+			st, isSt := in.(*ssa.Store)
+			if !isSt {
+				return
+			}
+			ref, _, okR := fieldAddrRef(st.Addr)
+			if !okR || !(ref.Name == "cursorvis" || ref.Name == "visible") {
+				return
+			}
+			if v, isC := constBool(st.Val); isC {
+				if v && countTests(rawGuardsAt(st.Block())) >= 4 {
+					ok = true
+				}
+				return
+			}
+			if countTests(expandCond(st.Val, true, 0)) >= 4 {
+				ok = true
+			}
+		})
+		_ = storesTo
 		c.Check(ok, "C18-R3", "(*simscreen).showCursor:four-bounds", p.pos(sc.Pos()), "cursor reported visible only inside all four bounds")
 	}
 }
